@@ -1,18 +1,30 @@
-"""Run recorded sessions on the REAL sc3 TempoClock in NRT mode (property C12).
+"""Run recorded sessions on the REAL sc3 TempoClock (property C12), NRT or RT (SC3_MODE).
 
 A case = constructor arguments, the quant with which the driver routine is played on the new
-clock, and steps (acts, then a yield).  Everything is called from routines: the constructor and the
-first play from a routine on SystemClock at time t0, every act from the driver routine running on
-the clock itself.  Numbers come in and go out exactly (ints as ints, floats as Fractions).
+clock, and steps (acts, then a yield).  Every act is made from the driver routine running on the
+clock itself.  Numbers come in and go out exactly (ints as ints, floats as Fractions).
 
-Output per case: the clock's numeric state after the constructor, and one event per act:
-  the thread's logical seconds (`now`), main.elapsed_time(), and the exact result
-  (state after a setter / returned number / name of the exception)."""
-import json, os, sys
+NRT: the constructor and the first play are made from a routine on SystemClock at time t0.
+RT : (sc3.init('rt'), own sc3.LIB_PORT) the constructor is called from the main thread with an explicit
+     dyadic `seconds` just ahead of the physical time, so that every LOGICAL time seen by the routines
+     (beats2secs of dyadic beats) is an exact dyadic number; only logical times are recorded, so the run does
+     not depend on load.  All cases run concurrently, each on its own clock thread.
+
+Output per case: the clock's numeric state after the constructor and `events`, IN EXECUTION ORDER:
+  driver acts   {'k': index of the act, 'now', 'elapsed', + 'state' | 'result' | 'raised' | play 'id'}
+  wake-ups      {'wake': id, 'beats', 'secs'}   when a played routine first runs
+(so changes made between a play and its wake-up are exactly the events between the two)."""
+import json, math, os, sys, threading, time
 from fractions import Fraction
 
 import sc3
-sc3.init(os.environ.get('SC3_MODE', 'nrt'))
+MODE = os.environ.get('SC3_MODE', 'nrt')
+if MODE == 'rt':
+    sc3.LIB_PORT = int(os.environ.get('SC3_LIB_PORT', '58200'))
+    sc3.LIB_PORT_RANGE = 8
+sc3.init(MODE)
+import logging
+logging.disable(logging.CRITICAL)
 import sc3.base.clock as clk
 from sc3.base.clock import TempoClock, SystemClock, Quant
 from sc3.base.stream import Routine
@@ -62,25 +74,42 @@ def state(c):
     return [enc(getattr(c, f)) for f in FIELDS]
 
 
-def ask(c, name, args):
+def ask(c, name, args, ev):
     if name in ('tempo', 'beat_dur', 'beats_per_bar', 'base_bar', 'base_bar_beat', 'beats', 'seconds'):
         return getattr(c, name)
     if name == 'time_to_next_beat':
         return c.time_to_next_beat(dec_quant(args[0]))
+    if name == 'grid_rel':       # reference beat given relative to the grid origin
+        ref = c.base_bar_beat + dec(args[2])
+        ev['ref'] = enc(ref)
+        return c.next_time_on_grid(dec(args[0]), dec(args[1]), ref)
     return getattr(c, name)(*[dec(x) for x in args])
 
 
-def run_case(case):
-    M.reset()
-    out = {'init': None, 'events': [], 'error': None}
-    events = out['events']
-    pending = []      # events of play acts, completed when the played routine first runs
+class Session:
+    def __init__(self, case):
+        self.case = case
+        self.out = {'init': None, 'events': [], 'error': None}
+        self.events = self.out['events']
+        self.first = None
+        self.outstanding = 0
+        self.driver_done = False
+        self.finished = threading.Event()
+        self.next_id = 0
+        self.clock = None
 
-    def spawn(c, ev, how, q):
+    def check_done(self):
+        if self.driver_done and self.outstanding == 0:
+            self.finished.set()
+
+    def spawn(self, c, ev, how, q):
+        pid = self.next_id
+        self.next_id += 1
+
         def child(inval):
-            ev['woke_beats'] = enc(inval[1].beats)
-            ev['woke_secs'] = enc(inval[1].seconds)
-            ev['clock_is_self'] = inval[1] is c
+            self.events.append({'wake': pid, 'beats': enc(inval[1].beats), 'secs': enc(inval[1].seconds)})
+            self.outstanding -= 1
+            self.check_done()
         r = Routine(child)
         try:
             if how == 'play':
@@ -89,76 +118,139 @@ def run_case(case):
                 c.play(r, dec_quant(q))
             else:
                 c.play_next_bar(r)
+            ev['id'] = pid
+            self.outstanding += 1
         except Exception as e:
             ev['raised'] = type(e).__name__
 
-    def driver(inval):
+    def driver(self, inval):
         c = inval[1]
-        first = pending[0]
-        first['woke_beats'] = enc(c.beats)
-        first['woke_secs'] = enc(c.seconds)
-        first['clock_is_self'] = True
-        for step in case['steps']:
-            for act in step['acts']:
-                ev = {'now': enc(c.seconds), 'elapsed': enc(M.elapsed_time())}
-                events.append(ev)
-                kind = act[0]
-                try:
-                    if kind == 'set':
-                        v = dec(act[2])
-                        if act[1] == 'tempo':
-                            c.tempo = v
-                        elif act[1] == 'etempo':
-                            c.etempo(v)
-                        elif act[1] == 'beats':
-                            c.beats = v
-                        elif act[1] == 'meter':
-                            c.beats_per_bar = v
-                        else:
-                            raise KeyError(act[1])
+        case = self.case
+        self.first['woke_beats'] = enc(c.beats)
+        self.first['woke_secs'] = enc(c.seconds)
+        k = -1
+        try:
+            for step in case['steps']:
+                for act in step['acts']:
+                    k += 1
+                    ev = {'k': k, 'now': enc(c.seconds), 'elapsed': enc(M.elapsed_time())}
+                    self.events.append(ev)
+                    kind = act[0]
+                    try:
+                        if kind == 'set':
+                            v = dec(act[2])
+                            if act[1] == 'tempo':
+                                c.tempo = v
+                            elif act[1] == 'etempo':
+                                c.etempo(v)
+                            elif act[1] == 'beats':
+                                c.beats = v
+                            elif act[1] == 'beats_rel':       # forward jump relative to the current beat
+                                v = c.beats + v
+                                ev['value'] = enc(v)
+                                c.beats = v
+                            elif act[1] == 'meter':
+                                c.beats_per_bar = v
+                            else:
+                                raise KeyError(act[1])
+                            ev['state'] = state(c)
+                        elif kind == 'ask':
+                            ev['result'] = enc(ask(c, act[1], act[2], ev))
+                        elif kind in ('play', 'clock_play', 'play_next_bar'):
+                            self.spawn(c, ev, kind, act[1] if len(act) > 1 else None)
+                    except (ValueError, ZeroDivisionError, clk.ClockError, TypeError) as e:
+                        ev['raised'] = type(e).__name__
                         ev['state'] = state(c)
-                    elif kind == 'ask':
-                        ev['result'] = enc(ask(c, act[1], act[2]))
-                    elif kind in ('play', 'clock_play', 'play_next_bar'):
-                        spawn(c, ev, kind, act[1] if len(act) > 1 else None)
-                except (ValueError, ZeroDivisionError, clk.ClockError, TypeError) as e:
-                    ev['raised'] = type(e).__name__
-                    ev['state'] = state(c)
-            if step.get('yield') is not None:
-                yield dec(step['yield'])
+                if step.get('yield') is not None:
+                    yield dec(step['yield'])
+        finally:
+            self.driver_done = True
+            self.check_done()
+
+    def make_clock(self, seconds):
+        i = self.case['init']
+        try:
+            c = TempoClock(dec(i['tempo']), dec(i['beats']), seconds)
+        except ValueError as e:
+            self.out['init'] = 'raised:' + type(e).__name__
+            self.driver_done = True
+            self.check_done()
+            return None
+        self.clock = c
+        self.out['init'] = state(c)
+        return c
+
+    def first_play(self, c, now):
+        ev = {'now': enc(now)}
+        self.first = ev
+        self.out['first_play'] = ev
+        try:
+            ev['beats_before'] = enc(c.beats)
+            def drv(inval):
+                yield from self.driver(inval)
+            Routine(drv).play(c, dec_quant(self.case['start_quant']))
+        except Exception as e:
+            ev['raised'] = type(e).__name__
+            self.driver_done = True
+            self.check_done()
+
+
+def run_nrt(case):
+    M.reset()
+    s = Session(case)
 
     def boot(inval):
         yield dec(case['t0'])
-        try:
-            i = case['init']
-            c = TempoClock(dec(i['tempo']), dec(i['beats']), dec(i['seconds']))
-        except ValueError as e:
-            out['init'] = 'raised:' + type(e).__name__
-            return
-        out['init_now'] = enc(M.current_tt._seconds)
-        out['init'] = state(c)
-        ev = {'now': enc(M.current_tt._seconds)}
-        pending.append(ev)
-        out['first_play'] = ev
-        try:
-            Routine(driver).play(c, dec_quant(case['start_quant']))
-        except Exception as e:
-            ev['raised'] = type(e).__name__
+        s.out['init_now'] = enc(M.current_tt._seconds)
+        c = s.make_clock(dec(case['init']['seconds']))
+        if c is not None:
+            s.first_play(c, M.current_tt._seconds)
 
     Routine(boot).play(SystemClock)
     M.process()
-    return out
+    return s.out
+
+
+def run_rt(cases, budget):
+    sessions = []
+    for case in cases:
+        s = Session(case)
+        sessions.append(s)
+        # a dyadic reference second slightly ahead of now: all logical times become exact
+        t0 = math.floor((M.elapsed_time() + 0.03) * 256) / 256
+        s.out['init_now'] = enc(t0)
+        s.out['rt_seconds'] = enc(t0)
+        c = s.make_clock(t0)
+        if c is not None:
+            s.first_play(c, t0)
+    deadline = time.time() + budget
+    for s in sessions:
+        if not s.finished.wait(max(0.05, deadline - time.time())):
+            s.out['error'] = 'timeout: driver_done=%s outstanding=%d' % (s.driver_done, s.outstanding)
+    for s in sessions:
+        try:
+            if s.clock is not None:
+                s.clock.stop()
+        except Exception:
+            pass
+    return [s.out for s in sessions]
 
 
 def main():
-    cases = json.load(open(sys.argv[1]))['cases']
-    res = []
-    for case in cases:
-        try:
-            res.append(run_case(case))
-        except Exception as e:
-            res.append({'error': '%s: %s' % (type(e).__name__, e), 'init': None, 'events': []})
-    json.dump({'out': res}, open(sys.argv[2], 'w'))
+    spec = json.load(open(sys.argv[1]))
+    cases = spec['cases']
+    if MODE == 'rt':
+        res = run_rt(cases, spec.get('budget', 20))
+    else:
+        res = []
+        for case in cases:
+            try:
+                res.append(run_nrt(case))
+            except Exception as e:
+                res.append({'error': '%s: %s' % (type(e).__name__, e), 'init': None, 'events': []})
+    json.dump({'out': res, 'mode': MODE}, open(sys.argv[2], 'w'))
+    sys.stdout.flush()
+    os._exit(0)
 
 
 main()
